@@ -2,6 +2,7 @@ SPECIFICATION Spec
 CONSTANTS
   Design = "code"
   Arity4 = FALSE
+  FirstRowCovered = TRUE
   CompactD1 = FALSE
   MaxSponge = 3
   MaxDepth = 4
